@@ -6,6 +6,7 @@ import (
 	"encoding/json"
 	"fmt"
 	"os"
+	"sync"
 
 	"cedarverif/internal/core"
 	"cedarverif/internal/fsreplay"
@@ -23,14 +24,20 @@ func run(c *core.Ctx) {
 	if c.Thorough() {
 		mc, gen = "MC_C18.cfg", "Gen_C18_thorough.cfg"
 	}
+	// model checking and behaviour generation are independent: run them side by side
+	var wg sync.WaitGroup
 	if c.Replay == "" && os.Getenv("VERIF_DEV_SKIPMC") == "" {
-		if kit.ModelCheck(c, "FSAuth.tla", mc, tlc.Options{Workers: 16}) == nil {
-			return
-		}
-	} else {
+		wg.Add(1)
+		go func() {
+			defer wg.Done()
+			kit.ModelCheck(c, "FSAuth.tla", mc, tlc.Options{Workers: 12})
+		}()
+	}
+	if c.Replay != "" {
 		gen = "Gen_C18_quick.cfg"
 	}
 	raws := kit.Generate(c, "Gen_FSAuth.tla", gen, tlc.Options{})
+	wg.Wait()
 	if c.IsBroken() {
 		return
 	}
@@ -106,6 +113,13 @@ func run(c *core.Ctx) {
 				jobs = append(jobs, fsreplay.Job{C: fsreplay.Concrete{Own: true, Variant: k, Scn: fsreplay.Scn{Role: "client", Abs: true,
 					Path: []string{"B", leaf}, Fam: fam, Fault: fault, Valid: true, Exp: "create"}}})
 			}
+		}
+	}
+	// every accepted path and every eighth refused one is observed by complete directory
+	// listings, the others by probing for the components of the sent path
+	for i := range jobs {
+		if jobs[i].C.Scn.Exp != "reject" || i%8 == 0 {
+			jobs[i].C.FullScan = true
 		}
 	}
 	nModel := len(jobs)
